@@ -28,7 +28,7 @@ RULE = (
     "allowed. Non-trivial = depth >= 2 and >= 2 leaves. module: case = OptimizerModule graph of depth <= 4. Non-trivial = >= 2 tensors and a "
     "nested container. Distinct = canonical JSON of the structure recipe."
 )
-BOUNDS = "depth <= 6, <= 4 children per node, <= ~40 leaves"
+BOUNDS = "depth <= 6, <= 4 children per node (sequences / integer-keyed dicts of up to 25 entries), <= ~40 leaves"
 ASSUMPTIONS = ["sets are not generated (their enumeration order is undefined and the property does not list them)"]
 NONTRIVIAL_FLOOR = 50
 
